@@ -35,6 +35,7 @@ const (
 	clsF19    = "string-option-number-lenient-content"            // `,string` Number field: encoding/json stores unvalidated / doubly quoted / "null" content, v1 validates
 	clsF17    = "undecodable-map-key-empty-object"                // Unmarshal {} into a map whose key type cannot be decoded
 	clsF21    = "string-option-pointer-quoted-null-non-basic"     // `,string` on a pointer to a non-basic type: v1 nils the pointer for the JSON string "null"
+	clsF26    = "string-option-string-lenient-inner-literal"      // `,string` string field whose quoted content is not a strict JSON string (unpaired surrogate escape, ill-formed UTF-8): encoding/json replaces, v1 rejects
 	clsF20    = "string-option-on-named-pointer"                  // `,string` on a field of a named pointer type (type P *int): encoding/json ignores the option
 )
 
@@ -411,6 +412,17 @@ func f19Content(decoded string) bool {
 	return c == '-' || (c >= '0' && c <= '9') || c == '"' || decoded == "null"
 }
 
+// f26Content: content of a JSON string that looks like a quoted literal but is
+// not a strict JSON string (reference recognizer, default options): the
+// lenient unquote of encoding/json may still accept it.
+func f26Content(decoded string) bool {
+	if len(decoded) < 2 || decoded[0] != '"' {
+		return false
+	}
+	_, err := ref.Parse([]byte(decoded), ref.Opt{})
+	return err != nil
+}
+
 // siteShape names the value-level known-finding shape of one site ("" if none).
 func siteShape(s docSite) string {
 	if f12Name(s.dom, s.name.Str) {
@@ -431,6 +443,9 @@ func siteShape(s docSite) string {
 	case s.fld.typ.Kind() == reflect.String:
 		if f5Content(s.val.Str) {
 			return clsF5
+		}
+		if f26Content(s.val.Str) {
+			return clsF26
 		}
 	case isNumericKind(s.fld.typ.Kind()):
 		if f7Content(s.val.Str) {
